@@ -174,7 +174,14 @@ func RunConc(sc *ConcScenario, want Want) *ConcResult {
 		callLimit = 1500000
 	}
 	sim := simrt.New(simrt.Config{Seed: sc.SchedSeed, Strategy: sc.Strategy, Epoch: sc.Epoch, StepBudget: budget, Replay: sc.Replay, CallStepLimit: callLimit})
+	if sc.Strategy.Kind == "rrq" {
+		res.probe("rrq_schedules", 1)
+	}
+	if sc.CBKind == 5 {
+		res.probe("rearming_callback_runs", 1)
+	}
 	if sc.TickPerRead > 0 {
+		res.probe("running_clock_runs", 1)
 		// a running clock: every reading is later than the one before
 		tick := sc.TickPerRead
 		sim.NowHook = func(s *simrt.Sim) { s.Advance(tick, false, 0) }
